@@ -172,6 +172,24 @@ V: List[Tuple[str, str, str, str, Any, Any, Optional[str]]] = [
     ("C04", "input hashes swapped on the way to the marker", "breaking", S + "component.py", "                js_input_hash=js_input_hash,\n                css_input_hash=css_input_hash,\n            )\n\n            trace_component_msg", "                js_input_hash=css_input_hash,\n                css_input_hash=js_input_hash,\n            )\n\n            trace_component_msg", "S20"),
     ("C04", "input css urls fed from the js list", "breaking", S + "dependencies.py", "            css={\"all\": [*to_load_component_css_urls, *to_load_input_css_urls]},", "            css={\"all\": [*to_load_component_css_urls, *to_load_input_js_urls]},", "S19"),
     ("C08", "css placeholder replaced by the js tags", "breaking", S + "dependencies.py", "            replacement = css_replacement\n", "            replacement = js_replacement\n", "S15"),
+    ("C07", "module-level empty Context handed to fills", "breaking", S + "slots.py", ("            return outer_context if outer_context is not None else Context()", "DEFAULT_SLOT_KEY = \"default\"\n"), ("            return outer_context if outer_context is not None else _EMPTY_CTX", "DEFAULT_SLOT_KEY = \"default\"\n_EMPTY_CTX = Context()\n"), "S1-G"),
+    ("C03", "module-level empty Context handed to fills", "breaking", S + "slots.py", ("            return outer_context if outer_context is not None else Context()", "DEFAULT_SLOT_KEY = \"default\"\n"), ("            return outer_context if outer_context is not None else _EMPTY_CTX", "DEFAULT_SLOT_KEY = \"default\"\n_EMPTY_CTX = Context()\n"), "S13"),
+    ("C07", "module-level immutable marker read by render code", "preserving", S + "slots.py", ("            return outer_context if outer_context is not None else Context()", "DEFAULT_SLOT_KEY = \"default\"\n"), ("            return outer_context if outer_context is not None else Context(_EMPTY_STR and None)", "DEFAULT_SLOT_KEY = \"default\"\n_EMPTY_STR = SafeString(\"\")\n"), None),
+    ("C18", "store skipped for None", "breaking", S + "util/cache.py", "        if key in self.cache:\n            node = self.cache[key]\n            # Update the value", "        if value is None:\n            return\n        if key in self.cache:\n            node = self.cache[key]\n            # Update the value", "S7"),
+    ("C18", "has() through get()", "breaking", S + "util/cache.py", "        return key in self.cache\n", "        return self.get(key) is not None\n", "S7"),
+    ("C09", "BOM stripped from the source", "breaking", S + "util/template_parser.py", "    index_start = 0\n    index_end = len(text)", "    text = text.lstrip(\"\\ufeff\")\n    index_start = 0\n    index_end = len(text)", "S15"),
+    ("C09", "length of the source in a local", "preserving", S + "util/template_parser.py", "    index_start = 0\n    index_end = len(text)", "    n_chars = len(text)\n    index_start = 0\n    index_end = n_chars", None),
+    ("C17", "dirs filtered by a string-prefix test", "breaking", S + "finders.py", "        component_dirs = [str(p) for p in get_component_dirs()]\n", "        component_dirs = [str(p) for p in get_component_dirs()]\n        component_dirs = [d for d in component_dirs if not any(d != o and d.startswith(o) for o in component_dirs)]\n", "S9"),
+    ("C17", "dirs de-duplicated in order", "preserving", S + "finders.py", "        component_dirs = [str(p) for p in get_component_dirs()]\n", "        component_dirs = [str(p) for p in get_component_dirs()]\n        component_dirs = list(dict.fromkeys(component_dirs))\n", None),
+    ("C15", "protected tags accumulate", "breaking", S + "library.py", "    lib._protected_tags = [*protected_tags]", "    lib._protected_tags = [*getattr(lib, \"_protected_tags\", []), *protected_tags]", "S9"),
+    ("C15", "protected tags copied with list()", "preserving", S + "library.py", "    lib._protected_tags = [*protected_tags]", "    lib._protected_tags = list(protected_tags)", None),
+    ("C16", "blank asset reported as undefined", "breaking", S + "component_media.py", "        asset_content = Path(full_path).read_text()\n\n    return asset_content", "        asset_content = Path(full_path).read_text()\n\n    return asset_content or None", "S6"),
+    ("C16", "early return for an undefined pair", "preserving", S + "component_media.py", "    if asset_file is not None:\n        # Check if the file is in one of the components' directories", "    if asset_content is None and asset_file is None:\n        return None\n    if asset_file is not None:\n        # Check if the file is in one of the components' directories", None),
+    ("C13", "variable part resolved without render()", "breaking", S + "expression.py", "        result = self.wrapped_node.render(context)\n        return str(result)", "        result = self.wrapped_node.filter_expression.resolve(context) if isinstance(self.wrapped_node, VariableNode) else self.wrapped_node.render(context)\n        return str(result)", "S10"),
+    ("C08", "content length synced outside the gate", "breaking", S + "dependencies.py", "            response.content = render_dependencies(response.content, type=\"document\")\n\n        return response", "            response.content = render_dependencies(response.content, type=\"document\")\n\n        if response.has_header(\"Content-Length\"):\n            response[\"Content-Length\"] = str(len(response.content))\n        return response", "S5"),
+    ("C08", "content length synced under the gate", "preserving", S + "dependencies.py", "            response.content = render_dependencies(response.content, type=\"document\")\n\n        return response", "            response.content = render_dependencies(response.content, type=\"document\")\n            if response.has_header(\"Content-Length\"):\n                response[\"Content-Length\"] = str(len(response.content))\n\n        return response", None),
+    ("C08", "latin-1 round trip around the insertion", "breaking", S + "dependencies.py", "            content_ = maybe_transformed.encode(\"utf-8\", errors=\"surrogateescape\")", "            content_ = maybe_transformed.encode(\"latin-1\")", "S4"),
+    ("C19", "timeout moved under OPTIONS", "breaking", S + "cache.py", "                    \"TIMEOUT\": None,  # No timeout\n", "", "S7"),
     ("C19", "comment", "preserving", S + "dependencies.py", "    script = get_script_content(script_type, comp_cls, input_hash)\n    if script is None:", "    script = get_script_content(script_type, comp_cls, input_hash)  # from the media cache\n    if script is None:", None),
 ]
 
